@@ -500,9 +500,9 @@ class TSPkoptEnv(ImprovementEnvBase):
 
                 # Process if k-opt close
                 if i > 0:
-                    stopped = stopped | (action == next_of_last_action).squeeze()
+                    stopped = stopped | (action == next_of_last_action).squeeze(-1)
                 else:
-                    stopped = (action == next_of_last_action).squeeze()
+                    stopped = (action == next_of_last_action).squeeze(-1)
                 k_action_left[stopped, i] = k_action_left[stopped, i - 1]
                 k_action_right[stopped, i] = k_action_right[stopped, i - 1]
 
